@@ -14,7 +14,7 @@ RULE = (
     "oracle: independent bitwise CRC-16 (poly 0x1021, init 0x1021) applied twice as the statement says. "
     "Non-trivial = a CRC with a zero leading nibble or the high bit set in either half, or an input longer "
     "than 255 bytes, or a non-lower-case spelling, or an invalid input; distinct by input string."
-        ' Also: inputs that already end in their own valid signature (signer output fed back), inputs of 4097..65537 bytes around power-of-two block boundaries, embedded blanks as invalid hex.')
+        ' Also: inputs that already end in their own valid signature (signer output fed back), inputs of 4097..65537 bytes around power-of-two block boundaries, embedded blanks as invalid hex; the hex text as a str-subclass instance and as a (str, Enum) member (text-forms); the same invalid text signed twice in a row.')
 ASSUMPTIONS = [
     "bitwise reference CRC checked against the catalogued check values of '123456789' (XMODEM, CCITT-FALSE, AUG-CCITT)",
     "Hypothesis generators; CPython bytes.fromhex for decoding the library's hex output",
@@ -50,6 +50,37 @@ def check_valid(rep, sub, p: str):
         got = None
     if len(tail) != 8 or got != exp:
         raise Violation("C04/signature-mismatch", case, exp.hex(), tail)
+
+
+def body_forms(rep, case):
+    """The hex text handed over as a str-subclass instance / a (str, Enum) member (packet templates kept in an enum)."""
+    from .. import gen
+    sign = _sign()
+    p, form = case["hex"], case["form"]
+    exp = crc.signature(bytes.fromhex(p))
+    rep.tick("text-forms", key=(p, form), nontrivial=True, sample=case, labels=(f"form={form}",))
+    try:
+        out = sign(gen.text_form(p, form))
+    except Exception as exc:
+        raise Violation(f"C04/raises-for-{form}", case, p + exp.hex(), f"{type(exc).__name__}: {exc}")
+    if not isinstance(out, str) or out[:len(p)].lower() != p.lower() or len(out) != len(p) + 8:
+        raise Violation(f"C04/alters-input/{form}", case, p + exp.hex(), repr(out)[:200])
+    try:
+        got = bytes.fromhex(out[len(p):])
+    except ValueError:
+        got = None
+    if got != exp:
+        raise Violation(f"C04/signature-mismatch/{form}", case, exp.hex(), out[len(p):])
+
+
+def cases_forms():
+    from .. import gen
+    out = []
+    frames = [f.hex() for f in ref_frames()]
+    for form in gen.TEXT_FORMS:
+        for p in ["", "00", "fef0", "FEF0", "a1B2c3"] + frames + [f.upper() for f in frames[:3]]:
+            out.append({"hex": p, "form": form})
+    return out
 
 
 def body_range(rep, case):
@@ -183,11 +214,12 @@ def strat_invalid():
 def body_invalid(rep, case):
     s = case["text"]
     rep.tick("invalid", key=s, nontrivial=True, sample=case, labels=("blank-inside",) if any(c in s for c in " \t\n\r") else ("odd-length",) if len(s) % 2 else ("non-hex",))
-    try:
-        out = _sign()(s)
-    except Exception:  # any exception type is a rejection
-        return
-    raise Violation("C04/invalid-hex-accepted", case, "an exception", out)
+    for attempt in ("first-call", "same-text-again"):
+        try:
+            out = _sign()(s)
+        except Exception:  # any exception type is a rejection
+            continue
+        raise Violation(f"C04/invalid-hex-accepted/{attempt}", case, "an exception", out)
 
 
 def subchecks(tier):
@@ -197,6 +229,7 @@ def subchecks(tier):
         Sub("bitflips", body_flip, cases=cases_flip, shards=16, exhaustive=True),
         Sub("random", body_random, strategy=strat_random, n=600_000 if big else 4000, shards=16 if big else 4),
         Sub("presigned", body_presigned, strategy=strat_presigned, n=100_000 if big else 1500, shards=8 if big else 1),
+        Sub("text-forms", body_forms, cases=cases_forms, shards=1, exhaustive=False),
         Sub("long", body_long, cases=cases_long, shards=4, exhaustive=True),
         Sub("spelling", body_spelling, strategy=strat_spelling, n=200_000 if big else 2000, shards=8 if big else 1),
         Sub("invalid", body_invalid, strategy=strat_invalid, n=200_000 if big else 2000, shards=8 if big else 1),
